@@ -1,6 +1,7 @@
 package guards
 
 import (
+	"os"
 	"fmt"
 	"go/token"
 	"go/types"
@@ -102,6 +103,21 @@ func paramTerm(f *ssa.Function, v ssa.Value) (dterm, bool) {
 			proj = append([]int{fa.Field}, proj...)
 			addr = fa.X
 		}
+		if al, ok := addr.(*ssa.Alloc); ok && len(proj) > 0 {
+			// a struct-valued parameter the SSA builder spilled to a local because its fields are selected
+			if sp := spilledParam(al); sp != nil {
+				for i, q := range f.Params {
+					if q == sp {
+						t := dterm{param: i}
+						for _, fi := range proj {
+							t = t.with(fi)
+						}
+						return t, true
+					}
+				}
+			}
+			return dterm{}, false
+		}
 		if p, ok := addr.(*ssa.Parameter); ok && len(proj) > 0 {
 			if _, isPtr := p.Type().Underlying().(*types.Pointer); !isPtr {
 				return dterm{}, false
@@ -118,6 +134,44 @@ func paramTerm(f *ssa.Function, v ssa.Value) (dterm, bool) {
 		}
 	}
 	return dterm{}, false
+}
+
+// spilledParam: al is the local copy `*al = p` of parameter p, written nowhere else and never escaping (its address is
+// used only to select fields that are loaded).
+func spilledParam(al *ssa.Alloc) *ssa.Parameter {
+	if al.Heap {
+		return nil
+	}
+	var p *ssa.Parameter
+	var onlyLoads func(addr ssa.Value) bool
+	onlyLoads = func(addr ssa.Value) bool {
+		for _, r := range *addr.Referrers() {
+			switch u := r.(type) {
+			case *ssa.UnOp:
+			case *ssa.FieldAddr:
+				if u.X != addr || !onlyLoads(u) {
+					return false
+				}
+			case *ssa.DebugRef:
+			case *ssa.Store:
+				if addr != ssa.Value(al) || u.Addr != addr {
+					return false
+				}
+				q, ok := u.Val.(*ssa.Parameter)
+				if !ok || p != nil {
+					return false
+				}
+				p = q
+			default:
+				return false
+			}
+		}
+		return true
+	}
+	if !onlyLoads(al) {
+		return nil
+	}
+	return p
 }
 
 func (e *Engine) predOperand(f *ssa.Function, v ssa.Value, sign int64, ps *PredSummary, depth int) bool {
@@ -359,10 +413,60 @@ func (a *FuncAn) hoist(g Lin) (string, bool) {
 		// the state right before the call: the block's entry facts plus nothing the block itself adds is enough for
 		// the idiom (the call is in the block the guarding branch leads to)
 		if !ca.Entails(c.Block(), l) {
+			if os.Getenv("LW_HOISTDEBUG") != "" {
+				fmt.Fprintf(os.Stderr, "hoist %s: goal %s fails at site %s in %s: site goal %s; facts %s\n", FuncShort(f), g.String(), c.String(), FuncShort(c.Parent()), l.String(), ca.factsText(c.Block(), l))
+			}
 			return "", false
 		}
 	}
 	return fmt.Sprintf("established at all %d call sites of %s", len(sites), FuncShort(f)), true
+}
+
+// hoistWith: hoist g, after cancelling atoms that are not entry terms (a loop index) with local facts of block b:
+// from  mu*g - la*f = g'  with f >= 0 a local fact and mu, la > 0, g' >= 0 at every call site gives g >= 0.
+func (a *FuncAn) hoistWith(b *ssa.BasicBlock, g Lin, depth int) (string, bool) {
+	if why, ok := a.hoist(g); ok {
+		return why, true
+	}
+	if depth == 0 || a.in[b] == nil {
+		return "", false
+	}
+	for _, t := range g.t {
+		if _, _, isEntry := a.entryTerm(t.a); isEntry {
+			continue
+		}
+		p := a.proverFor(a.in[b])
+		for _, fi := range p.byAtom[t.a] {
+			f := p.facts[fi]
+			d := f.Coef(t.a)
+			if d == 0 || (d < 0) != (t.k < 0) {
+				continue
+			}
+			gc := gcd(t.k, d)
+			mu, la := d/gc, t.k/gc
+			if mu < 0 {
+				mu = -mu
+			}
+			if la < 0 {
+				la = -la
+			}
+			if mu > 64 || la > 64 {
+				continue
+			}
+			ng := Add(Scale(g, mu), f, -la)
+			if len(ng.t) == 0 {
+				if ng.C >= 0 {
+					return "local facts", true
+				}
+				continue
+			}
+			if why, ok := a.hoistWith(b, ng, depth-1); ok {
+				return why + " (after cancelling " + t.a.Name + " with a local fact)", true
+			}
+		}
+		return "", false // this atom cannot be removed
+	}
+	return "", false
 }
 
 // cursorLoop recognises a loop driven by an object: the head tests a summarised predicate method of a receiver
@@ -601,4 +705,169 @@ func (e *Engine) fieldStep(m *ssa.Function, fi int) (string, bool) {
 		}
 	}
 	return delta.String(), true
+}
+
+
+// ---------------------------------------------------------------------------
+// consuming a buffer in strides
+
+// multipleAt: under state s the linear expression l is a multiple of k. l is reduced modulo k: atoms whose
+// coefficient is a multiple of k vanish, an atom x for which `x % k` was computed is replaced by that remainder, the
+// constant is reduced; what is left must be provably zero.
+func (a *FuncAn) multipleAt(s *State, l Lin, k int64) bool {
+	if k <= 0 {
+		return false
+	}
+	red := Konst(((l.C % k) + k) % k)
+	for _, t := range l.t {
+		if t.k%k == 0 {
+			continue
+		}
+		replaced := false
+		for _, rr := range a.rems {
+			if rr.k == k && len(rr.X.t) == 1 && rr.X.C == 0 && rr.X.t[0].k == 1 && rr.X.t[0].a == t.a {
+				red = Add(red, rr.r, t.k)
+				replaced = true
+				break
+			}
+		}
+		if !replaced {
+			red = Add(red, AtomLin(t.a), t.k)
+		}
+	}
+	if len(red.t) == 0 {
+		return red.C%k == 0
+	}
+	p := a.proverFor(s)
+	// red == 0, or red == k (e.g. r + (k - r))
+	if p.Entails(red) && p.Entails(Scale(red, -1)) {
+		return true
+	}
+	return p.Entails(red.plus(-k)) && p.Entails(Scale(red, -1).plus(k))
+}
+
+// lenMultiple: the length of sequence value v is a multiple of the constant k, judged where v is defined (for a phi:
+// on every incoming edge).
+func (a *FuncAn) lenMultiple(v ssa.Value, k int64, at *State, depth int) bool {
+	if depth > 3 {
+		return false
+	}
+	v = a.cv(v)
+	if phi, ok := v.(*ssa.Phi); ok {
+		for i, e := range phi.Edges {
+			if a.cv(e) == ssa.Value(phi) {
+				continue
+			}
+			ps := a.out[phi.Block().Preds[i]]
+			if ps == nil {
+				continue // unreachable edge
+			}
+			// the facts of the edge itself (the branch that leads here)
+			pred := phi.Block().Preds[i]
+			st := ps
+			if iff, ok := pred.Instrs[len(pred.Instrs)-1].(*ssa.If); ok && pred.Succs[0] != pred.Succs[1] {
+				st = ps.Clone()
+				a.condFacts(st, iff.Cond, pred.Succs[0] == phi.Block())
+			}
+			if !a.lenMultiple(e, k, st, depth+1) {
+				return false
+			}
+		}
+		return true
+	}
+	if at == nil {
+		return false
+	}
+	return a.multipleAt(at, a.LenOf(v), k)
+}
+
+// chunkLemma: v is a sequence phi c = phi(s0, c[k:]) of a loop that consumes a buffer in strides of k; where the
+// state says len(c) >= 1 and len(s0) is a multiple of k, a whole stride is left: len(c) >= k. (By induction every
+// c[k:] so far was in range, so len(c) = len(s0) - k*j is a non-negative multiple of k.) k is a positive constant, or a
+// loop-invariant value for which `len(s0) % k == 0` was tested (the strided-loop idiom of stridedLemma).
+func (a *FuncAn) chunkLemma(s *State, v ssa.Value) {
+	phi, ok := a.cv(v).(*ssa.Phi)
+	if !ok || len(phi.Edges) != 2 || !isSeq(phi.Type()) {
+		return
+	}
+	var s0, kv ssa.Value
+	var s0pred *ssa.BasicBlock
+	for i, e := range phi.Edges {
+		if sl, ok := e.(*ssa.Slice); ok && a.cv(sl.X) == ssa.Value(phi) && sl.Low != nil && sl.High == nil && sl.Max == nil {
+			kv = sl.Low
+			continue
+		}
+		s0, s0pred = e, phi.Block().Preds[i]
+	}
+	if s0 == nil || kv == nil {
+		return
+	}
+	ps := a.out[s0pred]
+	if ps == nil {
+		return
+	}
+	kl := a.Lin(kv)
+	if k, isC := ConstInt(kv); isC {
+		if k < 1 || !a.lenMultiple(s0, k, ps, 0) {
+			return
+		}
+	} else {
+		switch d := kv.(type) {
+		case *ssa.Parameter:
+		case ssa.Instruction:
+			if d.Block() == phi.Block() || !d.Block().Dominates(phi.Block()) {
+				return
+			}
+		default:
+			return
+		}
+		p := a.proverFor(ps)
+		if !p.Entails(kl.plus(-1)) {
+			return
+		}
+		found := false
+		sl := a.LenOf(s0)
+		for _, b := range a.Fn.Blocks {
+			for _, ins := range b.Instrs {
+				rem, ok := ins.(*ssa.BinOp)
+				if !ok || rem.Op != token.REM || a.Lin(rem.Y).key() != kl.key() || a.Lin(rem.X).key() != sl.key() || a.Lin(rem.X).C != sl.C {
+					continue
+				}
+				r := a.Lin(rem)
+				if p.Entails(r) && p.Entails(Scale(r, -1)) {
+					found = true
+				}
+			}
+		}
+		if !found {
+			return
+		}
+	}
+	delete(a.provers, s)
+	s.AddFact(Add(a.LenOf(phi), kl, -1))
+}
+
+// lenPositiveOperand: cond (with the given truth) says len(v) >= 1 for some sequence v; returns v.
+func lenPositiveOperand(c *ssa.BinOp, op token.Token) ssa.Value {
+	lenArg := func(x ssa.Value) ssa.Value {
+		if call, ok := x.(*ssa.Call); ok {
+			if bi, ok := call.Call.Value.(*ssa.Builtin); ok && bi.Name() == "len" && len(call.Call.Args) == 1 && isSeq(call.Call.Args[0].Type()) {
+				return call.Call.Args[0]
+			}
+		}
+		return nil
+	}
+	kx, okx := ConstInt(c.X)
+	ky, oky := ConstInt(c.Y)
+	switch {
+	case oky && lenArg(c.X) != nil:
+		if (op == token.NEQ && ky == 0) || (op == token.GTR && ky == 0) || (op == token.GEQ && ky == 1) {
+			return lenArg(c.X)
+		}
+	case okx && lenArg(c.Y) != nil:
+		if (op == token.NEQ && kx == 0) || (op == token.LSS && kx == 0) || (op == token.LEQ && kx == 1) {
+			return lenArg(c.Y)
+		}
+	}
+	return nil
 }
